@@ -70,7 +70,7 @@ fn inspect(p: &Arc<RedeemNode>) -> J {
         Ok(Ok(_)) => "ok".into(),
         Ok(Err(e)) => err_class(&e).to_string(),
     };
-    json!({"witnesses": wits, "all_typed": all_typed, "redecode": redecode, "exec": exec, "prune": prune})
+    json!({"witnesses": wits, "all_typed": all_typed, "redecode": redecode, "exec": exec, "prune": prune, "principal": crate::c08::principal_of(p)})
 }
 
 pub fn replay(path: &str) {
